@@ -158,7 +158,11 @@ def _quant(ex, st, clo, q):
         pats = infer_patterns(body, vs)
     body = to_z3(ex.wrap_defs(defs, to_z3(body), ex.spec_role))
     if pats:
-        return q(vs, body, patterns=pats)
+        try:
+            return q(vs, body, patterns=pats)
+        except z3.Z3Exception:
+            # z3 rejects some triggers (e.g. Boolean-valued applications it rewrites); fall back to its own choice
+            pass
     return q(vs, body)
 
 
